@@ -193,6 +193,7 @@ type rpcState struct {
 	clientDone   bool
 	cancelled    bool
 	inCall       string // API call the application goroutine is blocked in ("" none)
+	callStart    time.Time
 	startedAt    time.Time
 	deadline     time.Time
 	finishedAt   time.Time
@@ -231,6 +232,7 @@ type run struct {
 	qwant   bool
 	nquiesce int
 	hooks   []func() // run at every quiescent point
+	dlDue   []uint32
 	cntPulled map[cntKey]int64
 	abrupt  bool // the peer closed a connection abruptly on purpose
 	spies   map[int]*spyConn
@@ -448,7 +450,9 @@ func Run(e *core.Env, sc *Scenario) {
 	conn.Close()
 	w.lis.Close()
 	<-acceptDone
-	// the client has closed its connections; whatever is left is closed here
+	// the client closes its connections; a transport whose writer is stuck
+	// (blackhole, back-pressure) is closed by grpc after a few seconds at most
+	time.Sleep(20 * time.Second)
 	w.settle()
 	w.afterClose()
 	for _, pc := range w.peers {
@@ -635,27 +639,49 @@ func errStr(err error) string {
 	return "non-status:" + err.Error()
 }
 
-// api runs one blocking client API call; with the "deadline" oracle it must
-// return no later than max(call time, deadline) + slack (virtual time; the
-// slack covers the runtime's injected spin sleeps).
+// api runs one blocking client API call and records which call the
+// application goroutine is in. The deadline oracle is evaluated at the
+// quiescent point that deadlineWatch requests shortly after the RPC's
+// deadline: by then every call must have returned. (Comparing return times
+// with the deadline directly would be unsound: the runtime's spin guard may
+// put the calling goroutine to sleep for a virtual duration of its own.)
 func (w *run) api(st *rpcState, name string, f func() error) error {
 	t0 := time.Now()
 	st.inCall = name
+	st.callStart = t0
 	err := f()
 	st.inCall = ""
-	if !w.sc.has("deadline") {
-		return err
-	}
-	const slack = 10 * time.Millisecond
-	t1 := time.Now()
-	limit := st.deadline
-	if t0.After(limit) {
-		limit = t0
-	}
-	if t1.After(limit.Add(slack)) {
-		w.e.Violate("blocked_past_deadline", "rpc %d: %s returned %v after the deadline", st.r.ID, name, t1.Sub(st.deadline))
+	if w.sc.has("deadline") && time.Now().After(st.deadline.Add(deadlineSlack)) && t0.Before(st.deadline) {
+		w.e.Probe("api_returned_late_by_clock")
 	}
 	return err
+}
+
+const deadlineSlack = 10 * time.Millisecond
+
+// deadlineWatch asks for a quiescent point deadlineSlack after the deadline.
+func (w *run) deadlineWatch(st *rpcState, done chan struct{}) {
+	defer w.helpers.Done()
+	t := time.NewTimer(time.Until(st.deadline.Add(deadlineSlack)))
+	select {
+	case <-t.C:
+		w.dlDue = append(w.dlDue, st.r.ID)
+		w.requestQuiesce()
+	case <-done:
+		t.Stop()
+	}
+}
+
+func (w *run) checkDeadlines() {
+	due := w.dlDue
+	w.dlDue = nil
+	for _, id := range due {
+		st := w.rpcs[id]
+		if !st.clientDone && st.inCall != "" && st.callStart.Before(st.deadline) {
+			w.e.Violate("blocked_past_deadline", "rpc %d: %s is still blocked at a quiescent point more than %v after the RPC's deadline", id, st.inCall, deadlineSlack)
+		}
+		w.e.Probe("deadline_checked_at_quiescence")
+	}
 }
 
 func (w *run) clientRPC(conn *grpc.ClientConn, st *rpcState) {
@@ -672,6 +698,12 @@ func (w *run) clientRPC(conn *grpc.ClientConn, st *rpcState) {
 	st.deadline = st.startedAt.Add(d)
 	ctx, cancel := context.WithDeadline(context.Background(), st.deadline)
 	defer cancel()
+	if w.sc.has("deadline") {
+		done := make(chan struct{})
+		defer close(done)
+		w.helpers.Add(1)
+		go w.deadlineWatch(st, done)
+	}
 	ctx = metadata.NewOutgoingContext(ctx, metadata.Pairs("x-sim-rpc", strconv.FormatUint(uint64(r.ID), 10)))
 	var opts []grpc.CallOption
 	if r.WaitReady {
@@ -782,8 +814,8 @@ func (w *run) clientRPC(conn *grpc.ClientConn, st *rpcState) {
 		err := cs.RecvMsg(m)
 		if err == nil {
 			e.Violate("message_after_final_status", "rpc %d: RecvMsg delivered a message of %d bytes after the RPC had ended with %v", r.ID, len(m.B), st.clientStatus.Code())
-		} else if d := time.Since(t0); d > 10*time.Millisecond {
-			e.Violate("recv_after_final_status_blocked", "rpc %d: RecvMsg after the final status blocked for %v", r.ID, d)
+		} else if d := time.Since(t0); d > 0 {
+			e.Probe("recv_after_final_status_took_time")
 		}
 	}
 }
@@ -1220,6 +1252,9 @@ func (w *run) atQuiescence(final bool) {
 	if w.sc.has("goaway") {
 		w.checkGoAwayQuiescent()
 	}
+	if w.sc.has("deadline") {
+		w.checkDeadlines()
+	}
 	if w.sc.has("live") {
 		w.checkLiveness()
 	}
@@ -1362,7 +1397,9 @@ func (w *run) checkStreamQuota() {
 // afterClose runs after ClientConn.Close: every connection must be closed by
 // the client.
 func (w *run) afterClose() {
-	if !w.sc.has("closed_at_end") {
+	// with network faults a writer may stay blocked on a blackholed or stalled
+	// connection for as long as the (simulated) network does not fail the write
+	if !w.sc.has("closed_at_end") || w.faulty {
 		return
 	}
 	for _, idx := range w.viewIdx() {
@@ -1384,6 +1421,30 @@ func (w *run) checkAtEnd() {
 	}
 	if w.sc.has("goaway") {
 		w.checkGoAway()
+	}
+	if w.sc.has("terminal") {
+		// how the client reacted to the hostile peer (probes only)
+		for _, id := range w.ids {
+			if st := w.rpcs[id]; st.clientDone {
+				e.Probe("status_" + st.clientStatus.Code().String())
+			}
+		}
+		for _, pc := range w.peers {
+			if pc == nil {
+				continue
+			}
+			if pc.cliGoAway && pc.cliGoAwayCode != http2.ErrCodeNo {
+				e.Probe("client_goaway_" + pc.cliGoAwayCode.String())
+			}
+			for _, c := range pc.cliRst {
+				e.Probe("client_rst_" + c.String())
+			}
+		}
+		for _, idx := range w.viewIdx() {
+			if sp := w.spies[idx]; sp != nil && sp.closed {
+				e.Probe("client_closed_connection")
+			}
+		}
 	}
 	for _, f := range endHooks {
 		f(w)
